@@ -769,3 +769,71 @@ func HarnessC08Pair() {
 	}
 	verifrt.Cover("C08: two positions")
 }
+
+// ---------------------------------------------------------------------------------------------
+// C01 for key-emulating axes across a mapping switch
+
+func init() {
+	VerifHarnesses["HarnessAXMapSwitch"] = HarnessAXMapSwitch
+}
+
+// HarnessAXMapSwitch: a hat axis emulating keys in the first mapping; the second mapping maps the same axis to
+// nothing, to a controller, or to (other) notes. History: axis position, mapping_up pressed and released, axis
+// position, [disconnect]. Whenever the axis is back at the centre and no key is held nothing may be sounding.
+func HarnessAXMapSwitch() {
+	var code evdev.EvCode = evdev.ABS_HAT0X
+	note, note2 := verifrt.U8("note"), verifrt.U8("note2")
+	verifrt.Assume(note <= 127 && note2 <= 127)
+	second := verifrt.U8("second.kind") % 4 // 0 axis unmapped, 1 controller, 2 same notes, 3 other notes
+	m0 := config.KeyMapping{Name: "m0", Midi: map[string]map[evdev.EvCode]config.Key{},
+		Analog:          map[string]map[evdev.EvCode]config.Analog{"": {code: {MappingType: config.AnalogKeySim, Note: note, NoteNeg: note2, Bidirectional: true}}},
+		Deadzones:       map[string]map[evdev.EvCode]float64{},
+		DefaultDeadzone: map[string]float64{"": 0}}
+	m1 := config.KeyMapping{Name: "m1", Midi: map[string]map[evdev.EvCode]config.Key{},
+		Analog:          map[string]map[evdev.EvCode]config.Analog{"": {}},
+		Deadzones:       map[string]map[evdev.EvCode]float64{},
+		DefaultDeadzone: map[string]float64{"": 0}}
+	switch second {
+	case 1:
+		m1.Analog[""][code] = config.Analog{MappingType: config.AnalogCC, CC: 20, CCNeg: 21, Bidirectional: true}
+	case 2:
+		m1.Analog[""][code] = config.Analog{MappingType: config.AnalogKeySim, Note: note, NoteNeg: note2, Bidirectional: true}
+	case 3:
+		m1.Analog[""][code] = config.Analog{MappingType: config.AnalogKeySim, Note: note2, NoteNeg: note, Bidirectional: true}
+	}
+	cfg := config.Config{KeyMappings: []config.KeyMapping{m0, m1},
+		ActionMapping: map[evdev.EvCode]config.Action{evdev.KEY_F7: config.MappingUp},
+		CollisionMode: config.CollisionOff, Defaults: config.Defaults{Channel: 1, Velocity: 64}}
+	out := make(chan midi.Event, 64)
+	idev := input.Device{AbsInfos: map[string]map[evdev.EvCode]evdev.AbsInfo{"": {code: {Minimum: -1, Maximum: 1}}}}
+	d := NewDevice(idev, config.DeviceConfig{Config: cfg}, out, nil, true, 0, make(chan os.Signal, 1))
+	wn := verifrt.U8("w.note")
+	verifrt.Assume(wn <= 127)
+	sounding := false
+	step := func(ev *input.InputEvent) {
+		d.processEvent(ev)
+		for len(out) > 0 {
+			sounding = applyToReceiver(sounding, <-out, 0, wn)
+		}
+	}
+	r0, r1 := verifrt.I8("raw0"), verifrt.I8("raw1")
+	verifrt.Assume(r0 >= -1 && r0 <= 1 && r1 >= -1 && r1 <= 1)
+	step(absEvent("", code, int32(r0)))
+	switched := verifrt.Bool("switch")
+	if switched {
+		step(keyEvent(evdev.KEY_F7, EV_KEY_PRESS))
+		step(keyEvent(evdev.KEY_F7, EV_KEY_RELEASE))
+	}
+	step(absEvent("", code, int32(r1)))
+	if r1 == 0 {
+		verifrt.Cover("C01: axis back at centre")
+		verifrt.Assert(!sounding, "C01: nothing is sounding when no key and no key-emulating axis is held")
+	}
+	in := make(chan *input.InputEvent)
+	close(in)
+	d.ProcessEvents(in)
+	for len(out) > 0 {
+		sounding = applyToReceiver(sounding, <-out, 0, wn)
+	}
+	verifrt.Assert(!sounding, "C01: disconnect releases every note that is still sounding")
+}
